@@ -6,5 +6,8 @@ CONSTANTS
   Wipes = {}
   Variants = {}
   Cuts = FALSE
+  SectorSize = 1024
+  MaxFaults = 0
+  MaxRetry = 0
 CONSTRAINT Done
 CHECK_DEADLOCK FALSE
